@@ -107,6 +107,28 @@ CHECKS = {
                 tech="contract-based deductive verification (z3 strings/sequences) + syntactic obligations for glue code",
                 note="Assumed: re.sub contract behind esc, codecs.open/file.write (to_file is compared syntactically with the fenced "
                      "listing template), edge-agreement bridge validated boundedly. Repaired by fix: 5775e32."),
+    "C07": dict(cat="proof", design="3/C07",
+                text="Resolver.get, __get, __start, __cmp and _getattr are proved from their real bodies against the component-wise "
+                     "specification of the statement (GN/GE: node and error status after each component; first matching child; "
+                     "case-folded comparison iff ignorecase): the node reached is returned; RootResolverError / ChildResolverError / "
+                     "ResolverError exactly for the first failing component (carrying the node); with relax=True None in exactly those "
+                     "cases and no exception (proved after fix: 420228b).",
+                tech="contract-based deductive verification (z3 strings/sequences), inductive lemmas discharged in SMT",
+                note="The round-trip sentence (get of an absolute / Walker-spelled relative path returns the node, for sibling-unique "
+                     "names without separator) is covered by the BOUNDED stand-in only (evidence.bounded_parts). Assumed: str built-ins "
+                     "split/startswith/upper as axiomatised, navigation contract of node.root."),
+    "C08": dict(cat="proof", design="3/C08",
+                text="Proved from the real bodies: cache transparency - the representation invariant of Resolver._match_cache (every "
+                     "entry is the compiled translation of its own (pattern, ignorecase) key) is preserved by __match on every path "
+                     "(hit, miss, miss with eviction) and __match returns the wildcard match for this resolver's own ignorecase "
+                     "whatever the cache holds (all histories by invariant); __translate = the character-wise translation; "
+                     "is_wildcard; glob = __start with the wildcard matcher (root component rules, relax -> []) then __glob.",
+                tech="contract-based deductive verification (representation invariant of the shared cache, z3 strings)",
+                note="Resolver.__glob/__find (the recursive descent itself: denotation of '**'/wildcards/'..', which errors are "
+                     "swallowed, pre-order and duplicate clauses, strict dead-end rule, agreement with get) are NOT under contract: "
+                     "they are covered by the BOUNDED stand-in run in both tiers (evidence.bounded_parts) and never counted as proved. "
+                     "`re` semantics assumed (validated boundedly). Repaired by fix: ae02eb6 (strict glob blamed an existing literal "
+                     "component)."),
 }
 REASONS = {}
 
